@@ -47,6 +47,13 @@ class _Loop(vloop.VLoop):
             name = f'load-task-{self._anon}'
         return super().create_task(coro, name=name, context=context)
 
+    def full_state(self):
+        # state hashes of replayed prefix points are never used by the explorer: skip computing them
+        ch = self.chooser
+        if len(ch.points) < len(ch.prefix):
+            return None
+        return super().full_state()
+
 
 def make_run_one(num_slots, lookups):
     """lookups: tuple of (key, arrival, cancel_time|None)."""
